@@ -788,7 +788,7 @@ func genTokenPlan(r *rand.Rand, tier, focus string) *vfPlan {
 			cl := pick(r, clients)
 			l := []string{"redirect:" + pick(r, []string{"same", "same", "same", "other", "foreign"}), "nonce:" + pick(r, []string{"yes", "yes", "no", "short"})}
 			m := pick(r, []string{"S256", "S256", "none", "plain", "unknown", "nochallenge"})
-			if cl != "clientB" && cl != "clientD" && chance(r, 0.7) {
+			if cl != "clientB" && cl != "clientD" && chance(r, 0.5) {
 				m = "nochallenge"
 			}
 			l = append(l, "method:"+m)
@@ -808,6 +808,8 @@ func genTokenPlan(r *rand.Rand, tier, focus string) *vfPlan {
 				}
 				if c := vfClient(by); c != nil && c.Secret == "" {
 					tl[0] = "secret:absent"
+				} else if chance(r, 0.2) {
+					tl[0] = pick(r, []string{"secret:wrong", "secret:wrong", "secret:absent"}) // everything right but the client's own secret
 				}
 				if chance(r, 0.25) {
 					add(vfStep{Op: "advance", D: pick(r, []string{"1s", "3s", "4m59s", "5m1s"})})
